@@ -66,3 +66,59 @@ func Param(name string, def int) int
 func Witness(name string, v any)
 func Events() []string
 func Unreachable(why string)
+
+// ---- stage 2: the emitted program (DESIGN §4) ----
+
+// JSON kinds of a document node.
+const (
+	KAbsent = 0
+	KNull   = 1
+	KBool   = 2
+	KNumber = 3
+	KString = 4
+	KArray  = 5
+	KObject = 6
+)
+
+// Stage2 parses, type-checks (against the real dependency packages) and builds SSA for
+// emitted Go text; the result is a handle.
+func Stage2(src string) int
+func Stage2As(src, importPath string) int
+func S2OK(h int) bool
+func S2Errors(h int) string
+func S2FmtStable(h int) bool
+func S2Fits(h int) bool
+func S2HasType(h int, typ string) bool
+func S2HasMethod(h int, typ, method string) bool
+
+// NewDoc creates a symbolic document; Unmarshal runs (*typ).UnmarshalJSON / UnmarshalYAML of
+// the emitted package on it and returns a result handle.
+func NewDoc() int
+func Unmarshal(h int, typ, format string, doc int) int
+
+// RStatus: 0 accepted, 1 rejected with an error, 2 panicked.
+func RStatus(r int) int
+func RMsg(r int) string
+func RUnchanged(r int) bool
+
+// Document accessors (path: member names / array indices separated by '/', "" = root;
+// extra members of an object are "+0", "+1", ...).
+func DIs(doc int, path string, kind int) bool
+func DBool(doc int, path string) bool
+func DInt(doc int, path string) int64
+func DIsInt(doc int, path string) bool
+func DFloat(doc int, path string) float64
+func DStr(doc int, path string) string
+func DLen(doc int, path string) int
+func DMalformed(doc int) bool
+func RuneLen(s string) int
+func Matches(s, pattern string) bool
+
+// Decoded-value accessors (path of Go field names / indices below the receiver).
+func OGet(r int, path string) any
+func OIsNil(r int, path string) bool
+func OInt(r int, path string) int64
+func OFloat(r int, path string) float64
+func OStr(r int, path string) string
+func OBool(r int, path string) bool
+func OLen(r int, path string) int
